@@ -20,6 +20,8 @@ THEOREMS = [
     "Mesa.Collect.C12_raising_agent_reporter_leaves",
     "Mesa.Collect.C12_records_with_raising_reporters",
     "Mesa.Collect.C12_model_frame_every_shape",
+    "Mesa.Collect.C12_agenttype_frame_is_records",
+    "Mesa.Collect.C12_deepcopy_makes_stored_values_immune",
     "Mesa.Collect.C12_reorder_only_permutes_agents",
     "Mesa.Collect.C12_creation_order_without_reorder",
     "Mesa.Collect.C18_collect_tablerow_reject_unchanged",
